@@ -1,6 +1,9 @@
 package strutil
 
-import "strings"
+import (
+	"strings"
+	"unicode/utf8"
+)
 
 // HasSubseq determines whether s has t as its subsequence. A string t is a
 // subsequence of a string s if and only if there is a possible sequence of
@@ -11,7 +14,11 @@ func HasSubseq(s, t string) bool {
 		if i == -1 {
 			return false
 		}
-		s = s[i+len(string(p)):]
+		// Don't use the encoded length of p: when t has invalid UTF-8, p is
+		// utf8.RuneError, which matches a single invalid byte in s but is
+		// encoded as three bytes.
+		_, size := utf8.DecodeRuneInString(s[i:])
+		s = s[i+size:]
 	}
 	return true
 }
